@@ -460,6 +460,59 @@ class Built:
     def close(self):
         sys.modules.pop(self.module.__name__, None)
         linecache.cache.pop(self.module.__file__, None)
+        _forget(self.module.__name__)
+        try:  # Hypothesis memoizes the constants of every module it has seen in sys.modules (lru_cache of 4096 MODULES)
+            from hypothesis.internal import constants_ast
+
+            constants_ast.constants_from_module.cache_clear()
+        except Exception:
+            pass
+
+
+def _forget(modname: str) -> None:
+    """apischema keeps module-level registries keyed by class or function (deserializers, serializers, schemas, type
+    names, validators, serialized methods, fields-set classes, ...): entries of a closed generated module would keep
+    its classes alive for ever (8 GB per shard in a thorough run).  Generic sweep: every dict / set held by a module
+    of the apischema package loses the keys defined in `modname`."""
+    import apischema  # noqa: F401
+
+    def owned(k, depth=0) -> bool:
+        if getattr(k, "__module__", None) == modname:
+            return True
+        if depth < 4:  # generic aliases (typing.Deque[vgen_4.W]) and tuples mentioning a class of the module
+            args = k if isinstance(k, tuple) else getattr(k, "__args__", None)
+            if isinstance(args, tuple):
+                return any(owned(a, depth + 1) for a in args)
+        return False
+
+    _REGISTRIES[1] += 1
+    if _REGISTRIES[0] is None or _REGISTRIES[1] % 300 == 0:  # the module-level containers of the package (stable objects)
+        found = []
+        for name, mod in list(sys.modules.items()):
+            if mod is None or not (name == "apischema" or name.startswith("apischema.")):
+                continue
+            for attr, val in list(vars(mod).items()):
+                target = getattr(val, "wrapped", val)  # CacheAwareDict -> its plain dict (caches are reset at the next load)
+                if isinstance(target, (dict, set)) and not attr.startswith("__"):
+                    found.append(target)
+        _REGISTRIES[0] = found
+    for target in _REGISTRIES[0]:
+        try:
+            if isinstance(target, dict):
+                for k in [k for k in list(target) if owned(k)]:
+                    dict.pop(target, k, None)
+            else:
+                for k in [k for k in list(target) if owned(k)]:
+                    target.discard(k)
+        except Exception:
+            continue
+
+
+_REGISTRIES = [None, 0]
+
+
+def _unused():
+    pass
 
 
 def load(prog: Dict[str, Any], source: Optional[str] = None, reset: bool = True) -> Built:
